@@ -849,6 +849,13 @@ void Ports::refreshMagic()
     elms = ports.size();
 }
 
+#ifdef RTOSC_VERIF_HOOKS
+int Ports::verif_lookup_kind(void) const
+{
+    return !impl->pos.empty();
+}
+#endif
+
 ClonePorts::ClonePorts(const Ports &ports_,
         std::initializer_list<ClonePort> c)
     :Ports({})
